@@ -1,3 +1,268 @@
-"""placeholder replaced below"""
+"""C09 (b) -- thread interleavings, decided by the solver instead of enumerating schedules.
+
+Each thread builds and uses its own command (construct, decode its CDB with its class,
+re-encode).  Through the trace-mode loader every access to shared memory (class and
+module attributes, objects reachable from module globals / class dictionaries / function
+defaults) is logged during a *solo* run of each thread.  The interleaving is then a z3
+problem: one integer clock per step (a step = consecutive shared accesses on one source
+line), program order inside a thread, reads-from = latest earlier write to the location.
+Query: is there an order in which a read of one thread takes its value from a write of the
+other thread whose value differs from what it read solo?  unsat => in every line-level
+interleaving both threads observe exactly their solo values (up to the first foreign read
+both threads follow their solo traces, so the solo traces suffice).  sat => the model is a
+schedule; it is replayed with two real threads in plain python (sys.settrace gating at
+the scheduled source lines) and the outcome compared with the solo outcome."""
+import json
+import os
+import sys
+import threading
+
+from spec import cdb_layouts as L
+
+from . import common as K
+
+MOD = "checks.c09_threads"
+DEBUG = []
+LABEL = "no line-level interleaving of the two threads changes what either observes"
+
+
+def _prog(cmd):
+    """the thread program: build own command, decode own CDB, re-encode; returns the observation"""
+    spec = L.CDB[cmd]
+    st = "spc" if "spc" in spec["sets"] else list(spec["sets"])[0]
+    opcode = K.lookup_opcode(spec, st)
+    a, e = K.concrete_args(spec)
+    for k in a:
+        if k not in ("t_length", "t_dir", "count", "alloclen", "alloc_len"):
+            a[k] = 1 if L.width(spec["fields"][k]) == 1 else 3
+    cls = K.get_class(spec)
+
+    def run():
+        c = K.build(spec, opcode, a, e)
+        d = dict(cls.unmarshall_cdb(c.cdb))
+        raw = cls.marshall_cdb(d)
+        return (bytes(c.cdb), sorted((k, int(v) if not isinstance(v, (bytes, bytearray)) else bytes(v)) for k, v in d.items()),
+                bytes(raw), len(c.datain))
+    return run
+
+
+def _attempt(fn):
+    try:
+        return ("ok", fn())
+    except Exception as e:  # noqa
+        return ("exc", type(e).__name__)
+
+
+def _steps(events):
+    """group consecutive events on the same source line into steps"""
+    steps = []
+    for ev in events:
+        if steps and steps[-1]["site"] == ev[3]:
+            steps[-1]["ev"].append(ev)
+        else:
+            steps.append({"site": ev[3], "ev": [ev]})
+    return steps
+
+
+def _encode(steps):
+    """z3 encoding; returns (solver, clocks, disjuncts count)"""
+    import z3
+    s = z3.Solver()
+    s.set("timeout", 60000)
+    clk = [[z3.Int("c%d_%d" % (t, k)) for k in range(len(steps[t]))] for t in (0, 1)]
+    for t in (0, 1):
+        for k in range(len(clk[t])):
+            s.add(clk[t][k] >= 0)
+            if k:
+                s.add(clk[t][k - 1] < clk[t][k])
+    for x in clk[0]:
+        for y in clk[1]:
+            s.add(x != y)
+    writes = {0: {}, 1: {}}
+    for t in (0, 1):
+        for k, stp in enumerate(steps[t]):
+            for p, (kind, loc, vk, site) in enumerate(stp["ev"]):
+                if kind == "W":
+                    writes[t].setdefault(loc, []).append((k, p, vk))
+                    if loc[1] == "*":
+                        pass
+    disj = []
+    for t in (0, 1):
+        u = 1 - t
+        for k, stp in enumerate(steps[t]):
+            for p, (kind, loc, vk, site) in enumerate(stp["ev"]):
+                if kind != "R":
+                    continue
+                # candidate foreign writes: same location, or a whole-container mutation of the same object
+                cands = list(writes[u].get(loc, [])) + [w for l2, ws in writes[u].items() if l2[0] == loc[0] and l2[1] == "*" for w in ws]
+                if not cands:
+                    continue
+                if any(k2 == k and p2 < p for k2, p2, _ in writes[t].get(loc, [])):
+                    continue  # own write earlier on the same line always wins
+                for (j, pj, wv) in cands:
+                    if wv == vk:
+                        continue
+                    cond = [clk[u][j] < clk[t][k]]
+                    for (j2, p2, _) in writes[u].get(loc, []):
+                        if j2 > j:
+                            cond.append(z3.Not(clk[u][j2] < clk[t][k]))
+                    for (k2, p2, _) in writes[t].get(loc, []):
+                        if k2 < k:
+                            cond.append(z3.Not(clk[u][j] < clk[t][k2]))
+                    disj.append(z3.And(*cond))
+                    DEBUG.append((t, loc[1], vk, wv, site, steps[u][j]["site"]))
+    if disj:
+        s.add(z3.Or(*disj))
+    return s, clk, len(disj)
+
+
+# ------------------------------------------------------------------ plain-python replay of a schedule
+def run_schedule(progs, schedule, repo, timeout=20.0):
+    """run the two thread programs under a line-gating scheduler; schedule = [[tid, file, line], ...]"""
+    cv = threading.Condition()
+    state = {"idx": 0, "dead": False}
+    results = [None, None]
+    per = {0: [i for i, s in enumerate(schedule) if s[0] == 0], 1: [i for i, s in enumerate(schedule) if s[0] == 1]}
+
+    def make_tracer(tid):
+        st = {"next": 0, "in": None, "depth": 0, "stepdepth": 0}
+
+        def finish_step():
+            with cv:
+                if st["in"] is not None and state["idx"] == st["in"]:
+                    state["idx"] += 1
+                st["in"] = None
+                cv.notify_all()
+
+        def at_line(fn, lineno):
+            """the thread is about to execute (or to continue executing, after a call returned) this source line"""
+            if not fn.startswith(repo):
+                return
+            site = [fn[len(repo):].lstrip("/"), lineno]
+            if st["in"] is not None and site != schedule[st["in"]][1:] and st["depth"] <= st["stepdepth"]:
+                finish_step()
+            if st["in"] is None and st["next"] < len(per[tid]):
+                gi = per[tid][st["next"]]
+                if schedule[gi][1:] == site:
+                    with cv:
+                        ok = cv.wait_for(lambda: state["idx"] == gi or state["dead"], timeout=timeout)
+                        if not ok:
+                            state["dead"] = True
+                            cv.notify_all()
+                    st["in"] = gi
+                    st["next"] += 1
+                    st["stepdepth"] = st["depth"]
+
+        def local(frame, event, arg):
+            if event == "line":
+                at_line(frame.f_code.co_filename, frame.f_lineno)
+            elif event == "return":
+                st["depth"] -= 1
+                if st["in"] is not None and st["depth"] < st["stepdepth"]:
+                    finish_step()
+                back = frame.f_back
+                if back is not None:
+                    # the caller resumes its current line (no new 'line' event is generated for it)
+                    at_line(back.f_code.co_filename, back.f_lineno)
+            return local
+
+        def tracer(frame, event, arg):
+            if event == "call":
+                st["depth"] += 1
+                return local
+            return None
+        return tracer, st, finish_step
+
+    def body(tid):
+        tracer, st, fin = make_tracer(tid)
+        sys.settrace(tracer)
+        try:
+            results[tid] = _attempt(progs[tid])
+        finally:
+            sys.settrace(None)
+            fin()
+            # steps of this thread that were never reached must not block the other one
+            with cv:
+                while st["next"] < len(per[tid]):
+                    gi = per[tid][st["next"]]
+                    cv.wait_for(lambda: state["idx"] >= gi or state["dead"], timeout=timeout)
+                    if state["idx"] == gi:
+                        state["idx"] += 1
+                    st["next"] += 1
+                    cv.notify_all()
+    ths = [threading.Thread(target=body, args=(i,)) for i in (0, 1)]
+    for t in ths:
+        t.start()
+    for t in ths:
+        t.join(timeout * 3)
+    return results, state["dead"]
+
+
+def h_threads(ctx, a, b):
+    progs = [_prog(a), _prog(b)]
+    if not ctx.symbolic:
+        # concrete replay: solo outcomes first (sequentially), then the recorded schedule with real threads
+        solo = [_attempt(progs[0]), _attempt(progs[1])]
+        repo = os.environ.get("VERIF_REPO", "/repo")
+        got, dead = run_schedule(progs, ctx.inputs["schedule"], repo)
+        ctx.check(LABEL, got == solo and not dead, "solo=%r interleaved=%r" % (solo, got))
+        return
+    from symx import loader, trace
+    if not loader.TRACE:
+        # (re)load the library in trace mode: this worker is a fresh fork used for this obligation only
+        for m in [m for m in sys.modules if m == "pyscsi" or m.startswith("pyscsi.")]:
+            del sys.modules[m]
+        loader.TRACE = True
+        progs = [_prog(a), _prog(b)]
+    from symx import explore as _ex
+    saved, _ex._CUR = _ex._CUR, None   # the thread programs are concrete: run them outside symbolic mode
+    try:
+        _attempt(progs[0]), _attempt(progs[1])      # warm-up: imports, lazily created state
+        tr = trace.Tracer(trace.shared_ids())
+        solo, steps = [], []
+        for i in (0, 1):
+            tr.events = {}
+            trace.TR = tr
+            try:
+                solo.append(_attempt(progs[i]))
+            finally:
+                trace.TR = None
+            steps.append(_steps(tr.events.get(threading.get_ident(), [])))
+            trace.restore(tr)
+    finally:
+        _ex._CUR = saved
+    ctx.note("events", [sum(len(s["ev"]) for s in st) for st in steps])
+    solver, clk, nd = _encode(steps)
+    ctx.note("rf_candidates", nd)
+    ctx.note("rf_sample", [repr(x)[:300] for x in DEBUG[:4]])
+    if nd == 0:
+        ctx.check(LABEL, True, decided_by_solver=False)
+        ctx.check("threads share no location that one writes and the other reads with a different value", True)
+        return
+    import z3
+    r = solver.check()
+    ctx.ex.stats.solver_calls += 1
+    if r == z3.unsat:
+        ctx.check(LABEL, True, decided_by_solver=True)
+        return
+    if r != z3.sat:
+        ctx.check(LABEL, ctx.ex.branch(z3.Bool("unknown_interleaving")) and False)  # inconclusive marker
+        return
+    m = solver.model()
+    order = sorted(((m.eval(clk[t][k], model_completion=True).as_long(), t, k) for t in (0, 1) for k in range(len(clk[t]))))
+    repo = loader.REPO.rstrip("/")
+    sched = [[t, steps[t][k]["site"][0][len(repo):].lstrip("/"), steps[t][k]["site"][1]] for _, t, k in order]
+    ctx.record("schedule", sched)
+    ctx.check(LABEL, False, "schedule of %d steps" % len(sched))
+
+
 def obligations(tier):
-    return []
+    from symx.harness import Ob
+    reps = ["READ(10)", "READ(16)", "INQUIRY", "MODE SENSE(6)", "ATA PASS-THROUGH(16)", "READ ELEMENT STATUS", "TEST UNIT READY",
+            "PERSISTENT RESERVE OUT", "EXTENDED COPY(LID1)"]
+    cmds = reps if tier == "quick" else list(L.CDB)
+    obs = []
+    for i, a in enumerate(cmds):
+        for b in cmds[i:]:
+            obs.append(Ob("threads/%s||%s" % (a, b), MOD, "h_threads", {"a": a, "b": b}, canary=False))
+    return obs
